@@ -78,10 +78,16 @@ def api(call, fn, *a, **kw):
 #          sub-specifications, block comments between tokens, constants and variables (also) declared inside the text
 #   omit_idle: True -> in dense-time online update() calls a variable without new samples is left out instead of being
 #          passed with an empty batch
+#   dense_units: seed -> dense-time specifications are re-written for another default unit (same numbers on the time axis)
+#          with explicit, mixed and coarser units on the interval bounds
+#   failed_eval: seed -> every offline object first evaluates another, damaged log (a sensor delivers None): the call raises
+#          half-way, the exception is swallowed, and the object is then used as if nothing had happened
 #   knobs: seed -> every upper-case integer tuning constant (>= 16) found in the rtamt modules (cache sizes, scan limits,
 #          pending-queue caps ...) is set to a small value for the run, so that slow paths and evictions run on small inputs
 
 ENV = {}
+FAILED_USES = [0]
+UNIT_REWRITES = [0]
 _KNOB_SITES = None
 # only names that say "tuning constant": a unit factor or another semantic constant (NS_PER_S = 10**9) must never be shrunk
 import re as _re
@@ -115,6 +121,8 @@ def set_env(env):
     """returns an undo function"""
     global ENV
     ENV = dict(env or {})
+    FAILED_USES[0] = 0
+    UNIT_REWRITES[0] = 0
     undo = []
     if ENV.get('knobs') is not None:
         import random
@@ -174,8 +182,65 @@ def _decorate(desc):
     return d
 
 
+_IV = None
+
+
+def _dense_units(desc):
+    """run environment 'dense_units': a dense-time specification written for the default unit is re-written, equivalently,
+    for spec.unit = ms/us/ns with the SAME numbers on the time axis: each interval keeps its plain numbers, or gets an explicit
+    suffix on one or both bounds, or has one or both bounds expressed in the next coarser unit (0.75 ms = 0.00075 s).
+    Only conversions that are exact in binary floating point are used (quarter multiples below 50, factor 1000)."""
+    global _IV
+    import re
+    import random
+    from fractions import Fraction
+    from .specgen import fmt_num
+    if _IV is None:
+        _IV = re.compile(r'\[\s*([0-9]+(?:\.[0-9]+)?)\s*([,:])\s*([0-9]+(?:\.[0-9]+)?)\s*\]')
+    texts = [desc['spec']] + list(desc.get('subspecs') or [])
+    if any(re.search(r'\[[^\]]*[A-Za-z][^\]]*\]', t) for t in texts) or not any(_IV.search(t) for t in texts):
+        return desc            # bounds with explicit units or named constants are absolute: nothing to re-write
+    urng = random.Random(ENV['dense_units'])
+    du = urng.choice(['ms', 'us', 'ns'])
+    cu = {'ms': 's', 'us': 'ms', 'ns': 'us'}[du]
+
+    def one(x, style):
+        q = Fraction(x) * 4
+        if style == 'plain' or q.denominator != 1 or q >= 200:
+            return x
+        if style == 'du':
+            return x + du
+        return fmt_num(Fraction(x) / 1000) + cu
+
+    def rw(m):
+        a, sep, b = m.group(1), m.group(2), m.group(3)
+        sa, sb = urng.choice(['plain', 'plain', 'du', 'cu']), urng.choice(['plain', 'plain', 'du', 'cu'])
+        if sa == 'plain' and sb != 'plain' and urng.random() < 0.5:
+            sa = 'du'          # a unit-less begin would inherit the unit of the end bound: only equal units are left implicit
+        if sb == 'plain' and sa != 'plain':
+            sb = sa if urng.random() < 0.5 else 'du'
+        if sa == 'plain' and sb != 'plain':
+            sa = sb
+        ra, rb = one(a, sa), one(b, sb)
+        # a bound that could not be converted stays plain: then the other one must carry the default unit or nothing
+        if (ra == a) != (rb == b):
+            ra, rb = (a + du if ra != a else a), (b + du if rb != b else b)
+            if ra == a or rb == b:
+                ra, rb = a, b
+        return '[' + ra + sep + rb + ']'
+    d = dict(desc)
+    d['spec'] = _IV.sub(rw, desc['spec'])
+    d['subspecs'] = [_IV.sub(rw, t) for t in (desc.get('subspecs') or [])]
+    d['unit'] = du
+    UNIT_REWRITES[0] += 1
+    return d
+
+
 def new_spec(desc):
     """construct + declare (no parse)"""
+    if ENV.get('dense_units') is not None and desc['cls'] in ('ct', 'ct_off', 'ct_on') and not desc.get('unit') \
+            and not desc.get('prior'):
+        desc = _dense_units(desc)
     if ENV.get('decor') is not None:
         desc = _decorate(desc)
     sem = SEMANTICS[desc.get('semantics', 'standard')]
@@ -227,7 +292,43 @@ def apply_config(spec, old, new):
         api('set_sampling_period', spec.set_sampling_period, nsamp[0], nsamp[1], nsamp[2])
 
 
+def _failed_use(spec, desc):
+    """run environment 'failed_eval': an offline object first evaluates ANOTHER log in which one sensor delivers None from
+    some sample on; evaluate() raises half-way, the application catches the exception and goes on using the object. Nothing
+    of the failed evaluation may survive in the object (per-evaluation caches, result tables, counters are C13's business
+    and C13 opts out)."""
+    if ENV.get('failed_eval') is None or desc['cls'] not in ('dt_off', 'ct_off'):
+        return
+    import random
+    frng = random.Random(ENV['failed_eval'])
+    vs = [v for v, ty in desc.get('vars', []) if ty == 'float']
+    if not vs:
+        return
+    FAILED_USES[0] += 1
+    n = frng.randint(2, 6)
+    victim = vs[frng.randrange(len(vs))]
+    at = frng.randrange(n)
+    lat = [x * 0.5 for x in range(-8, 9)]
+    try:
+        if desc['cls'] == 'dt_off':
+            data = dict((v, [lat[frng.randrange(len(lat))] for _ in range(n)]) for v in vs)
+            data[victim] = [(None if i >= at else x) for i, x in enumerate(data[victim])]
+            dt_evaluate(spec, list(range(n)), data)
+        else:
+            sig = dict((v, [[float(i), lat[frng.randrange(len(lat))]] for i in range(n)]) for v in vs)
+            sig[victim] = [[t, (None if i >= at else x)] for i, (t, x) in enumerate(sig[victim])]
+            ct_evaluate(spec, sig)
+    except (ApiCrash, NumericOverflow):
+        pass
+
+
 def build(desc):
+    spec = _build(desc)
+    _failed_use(spec, desc)
+    return spec
+
+
+def _build(desc):
     """construct, declare, parse and (if asked) pastify.
     desc['prior'] (a fault, not a different specification): the object has a history before it reaches the configuration of
     desc - it was configured with prior['unit'] / prior['sampling'], possibly reset() early (prior['early_reset']) and,
